@@ -169,8 +169,13 @@ CONTINUED in `Props/C16Own.lean`: the composition over nitrogql's OWN parser (C0
 specification's lexer and parser — `C16_roundtrip_own_parser_exec` / `_ts` / `_tsext`, `server_module_roundtrip_own`.
 
 OPEN — carried by K/O only (never claimed as proved)
-  * over nitrogql's own parser: the documents outside the side conditions of `Props/C16Own.lean` (block strings, `\u{…}`
-    escapes, …: see the OPEN block of `Props/C16.lean`);
+  * over the specification's lexer and parser (this file): the documents outside the hypotheses `wfDoc` / `wfTsDoc`,
+    `itemUnionOK` (member-less union), `strsOK` (double quote in the quoted form; block-printed string with
+    `BlockStringValue s ≠ s` — the open string findings) and `lexemesOK`; that a checked schema satisfies `OnlyOnScalars` /
+    `OnlyOnObjects` (hypotheses of `server_module_roundtrip_text`);
+  * over the model of nitrogql's own parser: the documents outside the side conditions of `Props/C16Own.lean` (block strings
+    — the round trip is FALSE there for an indented description, `C16_roundtrip_own_parser_block_counterexample` —, `\u{…}`
+    escapes, a double quote, a member-less union extension, …: see the OPEN block of `Props/C16.lean`);
   * the `#import` lines of executable documents (comments for GraphQL, read by nitrogql's own import syntax).
 -/
 
